@@ -1,7 +1,7 @@
 #!/bin/bash
 # confirm_seed.sh <ID> [<out-dir>] : confirm a sub-agent's seeded change in its scratch worktree /tmp/mut/<ID>:
 #   with the change: the 55 existing tests pass and the demonstration fails; without it: the demonstration passes.
-ID=$1; OUT=${2:-/tmp/mut/$ID-out}; WT=/tmp/mut/$ID; export CARGO_TARGET_DIR=/tmp/mut/$ID-target CARGO_NET_OFFLINE=true
+ID=$1; OUT=${2:-/tmp/mut${ROUND:-}/$ID-out}; WT=/tmp/mut${ROUND:-}/$ID; export CARGO_TARGET_DIR=/tmp/mut${ROUND:-}/$ID-target CARGO_NET_OFFLINE=true
 cd $WT || exit 2
 git checkout -q -- . ; git clean -fdq tests 2>/dev/null
 git apply $OUT/patch.diff || { echo "CONFIRM $ID: patch does not apply"; exit 2; }
